@@ -8,8 +8,8 @@ SPEC = {
     "sub": "c12",
     "lean_modules": ["TrustVerif.Props.C12"],
     "tiers": {
-        "quick": {"cases": 2000, "extra": {"maxbytes": 4096, "maxmodeltokens": 3000}},
-        "thorough": {"cases": 30000, "extra": {"maxbytes": 4096, "maxmodeltokens": 7000}},
+        "quick": {"cases": 2000, "extra": {"maxbytes": 4096, "maxmodeltokens": 3000, "maxparseevents": 4000}},
+        "thorough": {"cases": 30000, "extra": {"maxbytes": 4096, "maxmodeltokens": 7000, "maxparseevents": 20000}},
     },
     "timeout": 7200,
     # The compared observables are the post-pass token list and the tree built from the real event
